@@ -42,7 +42,7 @@ func (c10) Meta() fw.Meta {
 
 func (c10) Cases(tier string) int {
 	if tier == "thorough" {
-		return 5000
+		return 15000
 	}
 	return 240
 }
